@@ -127,4 +127,41 @@ theorem all_or_nothing (w : World) (verbose : Bool) (archive : Str) (srcs : List
     subst h2
     exact ⟨h1, rfl⟩
 
+/-- **C09 (success holds every source completely — one statement, no hypothesis)**: for every world and every source list, when
+    `--create` returns 0 the file it writes is the format's encoding (`Spec.K7.tape`: per source a leader, the data blocks whose
+    payloads concatenate to its content, an end block; zero padding; 21504 bytes) of *all* the sources, in order — every source was
+    readable and accepted, and the whole list fits -/
+theorem success_holds_every_source (w : World) (verbose : Bool) (archive : Str) (srcs : List Str)
+    (h0 : (inject w verbose archive srcs).status = .ret 0) :
+    AllReadable w archive srcs ∧ Spec.K7.encSize (srcs.map (C03.specFile w)) < 21504
+      ∧ (inject w verbose archive srcs).writes = [(archive, Spec.K7.tape (srcs.map (C03.specFile w)))]
+      ∧ (Spec.K7.tape (srcs.map (C03.specFile w))).length = 21504 := by
+  have hr : AllReadable w archive srcs := by
+    intro s hs
+    apply Classical.byContradiction
+    intro hbad
+    by_cases hre : refusal archive s = none
+    · have hmiss : w (classify s).2 = none := by
+        cases hw : w (classify s).2 with
+        | none => rfl
+        | some d => exact absurd ⟨hre, d, hw⟩ hbad
+      exact (missing_source w verbose archive srcs ⟨s, hs, hmiss⟩).1 h0
+    · have := injectLoop_refused w archive srcs blank { verbose := verbose } [] ⟨s, hs, hre⟩
+      unfold inject at h0
+      generalize injectLoop w archive blank { verbose := verbose } [] srcs = r at this h0
+      obtain ⟨st, out, t⟩ := r
+      simp only at this
+      obtain ⟨h1, h2⟩ := this
+      subst h1
+      simp only at h0
+      exact h2 h0
+  have hfit : Spec.K7.encSize (srcs.map (C03.specFile w)) < 21504 := by
+    apply Classical.byContradiction
+    intro hn
+    have := (refused w verbose archive srcs hr hn).1
+    rw [h0] at this
+    cases this
+  have hfit' : totalLen (allRaw w srcs) < Gen.Tape.tapeSize := by rw [needed_eq_encSize]; exact hfit
+  exact ⟨hr, hfit, (C03.created_tape_is_k7 w verbose archive srcs hr hfit').1, (C03.created_tape_is_k7 w verbose archive srcs hr hfit').2⟩
+
 end Moto.C09
